@@ -319,3 +319,39 @@ pub fn b_cursor(ty: u8, meth: u8) {
     }
     end_reached!();
 }
+
+/// swap_rows on an owned array (recv 0) or a strided mutable view (recv 1). draws: cols, rows, stride, r1, r2
+pub fn b_swap_rows(recv: u8) {
+    let cols = nd::usize_();
+    let rows = nd::usize_();
+    let stride = nd::usize_();
+    let r1 = nd::usize_();
+    let r2 = nd::usize_();
+    nd::assume(cols <= 64 && rows <= 64 && stride <= 64 && cols <= stride && (cols == 0) == (rows == 0));
+    let stride = if recv == 0 { cols } else { stride };
+    let mut buf = grid(stride.max(1), rows.max(1));
+    let old = buf.clone();
+    let inr = r1 < rows && r2 < rows;
+    if recv == 0 {
+        buf.truncate(cols * rows);
+        let mut t = TooDee::from_vec(cols, rows, buf);
+        t.swap_rows(r1, r2);
+        buf = t.into();
+    } else {
+        let n = stride * rows;
+        let mut parent = TooDeeViewMut::new(stride, rows, &mut buf[..n]);
+        let mut v = parent.view_mut((0, 0), (cols, rows));
+        v.swap_rows(r1, r2);
+    }
+    if !inr {
+        returned!();
+        return;
+    }
+    for y in 0..rows {
+        for x in 0..stride {
+            let src = if x >= cols { y } else if y == r1 { r2 } else if y == r2 { r1 } else { y };
+            assert!(buf[y * stride + x] == old[src * stride + x], "ORACLE: swap_rows changed a cell it must not, or did not exchange the rows");
+        }
+    }
+    end_reached!();
+}
